@@ -8,7 +8,7 @@ from vlib.runner import Refused, Violation, sut
 from vlib.spec import build, spec_scope
 
 ID = "C09"
-BUDGET = {"quick": 3200, "thorough": 60000}
+BUDGET = {"quick": 3200, "thorough": 240000}
 RULE = ("Generated: unconstrained layer DAGs (G-any: sums over different scopes, overlapping products, constant "
         "layers; embedding / polynomial / categorical leaves) and smooth&decomposable ones (G-sd), pairs on equal "
         "or different vtrees, with valid and invalid operator arguments (Z not a subset / empty, order in {-1,0}, "
